@@ -8,7 +8,7 @@ LEVEL = 'exploration'
 B = [0, 1, 2, 0x7F, 0x80, 0xFF, 0x100, 0xFFFF, 0x10000, 2**31 - 1, 2**31, 2**32 - 2, 2**32 - 1]
 RULE = ('list: every sequence of 0..3 entries from a pool of boundary entries (names a, 255 x b, \\xff\\x00/, UTF-8; mode/size/mtime in {0,1,2^31,2^32-1}) x ALL sets '
         'of <=k cut positions of the DENT/DONE reply stream (short-name listings) or <=1 (all listings) + all-1-byte + 300-entry listings x WRTE sizes; stat: all '
-        '13^3 boundary triples x every cut position of the 16-byte reply, <=2 cuts on a subset; both twins; the same with the reply WRTEs overtaking the OKAY of the request (legal per protocol.txt); the same requests after a reply that was cut off in mid-record, after an abandoned OPEN that is answered late, and under global bulk_read fragmentation policies; oracle: return value == model filesystem, '
+        '13^3 boundary triples x every cut position of the 16-byte reply, <=2 cuts on a subset; both twins; the same with the reply WRTEs overtaking the OKAY of the request (legal per protocol.txt); the same requests after a reply that was cut off in mid-record, after an abandoned OPEN that is answered late, under global bulk_read fragmentation policies, and beside a second live stream of the same connection (all wire orders); oracle: return value == model filesystem, '
         'stream closed, all device packets consumed; non-trivial = at least one entry / any stat; distinct = distinct (listing or triple, cut set, twin)')
 ASSUMPTIONS = ['adbsim sync service follows SYNC.TXT', 'field values come from a 13-value boundary alphabet, names from a 5-name pool']
 
@@ -108,6 +108,39 @@ def run_late(params, ch):
         s.finish()
 
 
+def run_beside(params, ch):
+    """list and stat while another stream of the same connection is live (a suspended streaming_shell with packets in flight):
+    whichever reader takes a packet off the wire, each call returns exactly the model's data and closes its stream."""
+    from .. import scen
+    ents = listing(POOL, 2, params['idx'])
+    other = [b'OTHER-1', b'OTHER-2', b'OTHER-3'][:params['nother']]
+    cfg = {'fs': {'dirs': {b'/d': ents}, 'stats': {b'/s': (2**32 - 1, 2**31, 1)}}, 'shell': {b'shell:other': other}, 'clse': params['clse'], 'cut': {'size': params['wrte']},
+           'remote_ids': scen.REMOTE_FAMILIES[params['family']]}
+    s = Session(ch, cfg, twin=params['twin'])
+    try:
+        s.op(('connect',))
+        r0 = s.op(('gen-start', 'other', {'decode': False}))
+        viol = []
+        if r0 != ('ok', other[0]):
+            viol.append({'msg': 'first item of the other stream: %r' % (r0,)})
+        for name in params['ops']:
+            r = s.op(('list', '/d') if name == 'list' else ('stat', '/s'))
+            want = ('ok', [(bytearray(e[0]), e[1], e[2], e[3]) for e in ents]) if name == 'list' else ('ok', (2**32 - 1, 2**31, 1))
+            if r != want:
+                viol.append({'msg': '%s beside a live stream returned %r, the device sent %r' % (name, r if len(repr(r)) < 200 else repr(r)[:200], want[1] if len(repr(want)) < 200 else '...')})
+                break
+        if not viol:
+            r2 = s.op(('gen-rest', 0))
+            if r2 != ('ok', other[1:]):
+                viol.append({'msg': 'rest of the other stream: %r' % (r2,)})
+            viol += oracle.base_viol(s, completed=True)
+        order = tuple((p.cmd, p.a1) for w, p in s.env.events if w == 'D')
+        return {'outcome': (len(viol), order), 'viol': viol, 'nontrivial': (tuple(sorted((k, str(v)) for k, v in params.items())), tuple(ch.choices)), 'sample': dict(params, wire_order=[(c.decode(), i) for c, i in order][:12]),
+                'trans': len(s.env.events)}
+    finally:
+        s.finish()
+
+
 def run_retry(params, ch):
     """The device service dies in the middle of a list/stat reply (CLSE instead of the next WRTE); the same request on the same
     connection afterwards must return exactly the model's data (nothing of the aborted reply may leak into it)."""
@@ -165,4 +198,8 @@ def parts(tier):
     out.append(Part('list-under-read-fragmentation', sc, run_list, what='listings under global bulk_read fragmentation policies (1 byte, 2 bytes, halves, n-1, alternating empty reads)', bound='%d cases' % len(sc)))
     sc = [{'triple': (a, b, c), 'twin': t, 'kmax': 1, 'policy': pol} for (a, b, c) in ((0, 0, 0), (2**32 - 1, 2**31, 1), (0o100644, 0x10000, 0xFF)) for t in twins for pol in ('one', 'two', 'half', 'n-1', 'alt-empty-one')]
     out.append(Part('stat-under-read-fragmentation', sc, run_stat, {'*': None}, what='stat under global bulk_read fragmentation policies x every single cut', bound='%d cases' % len(sc)))
+    sc = [{'twin': t, 'ops': ops, 'clse': c, 'family': f, 'nother': n, 'wrte': w, 'idx': 9} for t in twins for ops in (['list'], ['stat'], ['stat', 'list']) for c in ('after-ack', 'eager')
+          for f in ('small', 'mirror') for n in (1, 3) for w in (11, 4096)]
+    out.append(Part('beside-a-live-stream', sc, run_beside, {'dev-order': None}, what='list/stat while a suspended streaming_shell of the same connection has packets in flight: every device wire order',
+                    bound='%d cases x all wire orders' % len(sc)))
     return out
